@@ -32,7 +32,9 @@ def txt(i):
         return "€"
     if i == 4:
         return "a€"
-    return "😀b"
+    if i == 5:
+        return "😀b"
+    return "c" + chr(13) + chr(10)
 
 
 def ulen(s):
@@ -41,7 +43,7 @@ def ulen(s):
 
 def c07_write_step(size: int, limit: int, si: int) -> bool:
     """
-    pre: 0 <= si <= 5
+    pre: 0 <= si <= 6
     pre: size >= 0 and limit >= 0
     post: _
     """
@@ -60,7 +62,7 @@ def c07_write_step(size: int, limit: int, si: int) -> bool:
 
 def c07_write_seq(limit: int, s1: int, s2: int, s3: int) -> bool:
     """
-    pre: 0 <= s1 <= 5 and 0 <= s2 <= 5 and 0 <= s3 <= 5
+    pre: 0 <= s1 <= 6 and 0 <= s2 <= 6 and 0 <= s3 <= 6
     pre: limit >= 0
     post: _
     """
@@ -128,7 +130,7 @@ def render_limited(t, L, data):
 def _mk_out(kind):
     def f(vi: int, wi: int, n: int, L: int) -> bool:
         """
-        pre: 0 <= vi <= 5 and 0 <= wi <= 5 and 0 <= n <= 3
+        pre: 0 <= vi <= 6 and 0 <= wi <= 6 and 0 <= n <= 3
         pre: 0 <= L <= 60
         post: _
         """
@@ -153,7 +155,7 @@ def _mk_out_exact(kind):
     # for skeletons without capture/ifchanged side buffers the limit is exact: raises IFF unlimited > L
     def f(vi: int, wi: int, n: int, L: int) -> bool:
         """
-        pre: 0 <= vi <= 5 and 0 <= wi <= 5 and 0 <= n <= 3
+        pre: 0 <= vi <= 6 and 0 <= wi <= 6 and 0 <= n <= 3
         pre: 0 <= L <= 60
         post: _
         """
@@ -237,7 +239,7 @@ NT = {k: NENV.from_string(v) for k, v in NS_SKEL.items()}
 def _mk_ns(kind):
     def f(vi: int, wi: int, n: int, M: int, ss: int, si: int, so: int) -> bool:
         """
-        pre: 0 <= vi <= 5 and 0 <= wi <= 5 and 0 <= n <= 2
+        pre: 0 <= vi <= 6 and 0 <= wi <= 6 and 0 <= n <= 2
         pre: 0 <= ss <= 50 and 0 <= si <= 50 and 0 <= so <= 50
         pre: 1 <= M <= 400
         post: _
@@ -281,7 +283,7 @@ for _k in NS_SKEL:
     CONDITIONS.append({"fn": "c07_ns_" + _k, "quick": 60, "thorough": 240})
 
 ASSUMPTIONS = [
-    "text contents come from a 6-element multi-byte pool (selector); limits, loop lengths and stubbed object sizes are symbolic",
+    "text contents come from a 7-element pool (multi-byte characters and CR LF; selector); limits, loop lengths and stubbed object sizes are symbolic",
     "N1: sys.getsizeof inside liquid.context is replaced by a size function with symbolic per-kind sizes (str: ss + len, int: si, other: so); the property is about the accounting, not CPython's object sizes",
     "N1: a wrapper around RenderContext.assign records get_size_of_locals() after each normal return",
     "c07_out_*: when the unlimited output fits in L, raising is still accepted if L < 4 x output + 64 (captured text counts against the limit by design)",
